@@ -441,6 +441,10 @@ Definition run_words (ws : list string) : string :=
   | ["extenc"; "P"; l] => show_opt (enc_point_formats (zlist_of_string l))
   | ["extenc"; "V"; l] => show_opt (enc_supported_versions_client (zlist_of_string l))
   | ["extenc"; "S"; l] => show_opt (enc_signature_algorithms (zlist_of_string l))
+  (* whole extensions (type and length included) whose data is a SignatureSchemeList: signature_algorithms_cert (RFC 8446 4.2.3, 50)
+     and delegated_credential (RFC 9345, 34) *)
+  | ["extenc"; "C"; l] => match enc_signature_algorithms (zlist_of_string l) with Some d => show_opt (enc_extension (50, d)) | None => "NONE" end
+  | ["extenc"; "D"; l] => match enc_signature_algorithms (zlist_of_string l) with Some d => show_opt (enc_extension (34, d)) | None => "NONE" end
   | ["extenc"; "A"; l] => show_opt (enc_alpn (hexlist_of_string l))
   | ["extenc"; "N"; h] => show_opt (enc_sni (bytes_of_hex h))
   | ["extenc"; "K"; l] => show_opt (enc_psk_modes (zlist_of_string l))
